@@ -64,15 +64,22 @@ def set_option(text, section, option, value):
 
 
 def get_option(text, section, option, default=None):
+    """Value of an option (continuation lines of a multi-line value are joined with a blank)."""
     in_section = False
-    for line in text.splitlines():
+    lines = text.splitlines()
+    for i, line in enumerate(lines):
         m = re.match(r"^\[(.+)\]\s*$", line)
         if m:
             in_section = (m.group(1) == section)
         elif in_section:
             mm = re.match(r"^%s\s*=\s*(.*)$" % re.escape(option), line)
             if mm:
-                return mm.group(1).strip()
+                value = mm.group(1).strip()
+                j = i + 1
+                while j < len(lines) and lines[j].startswith((" ", "\t")) and lines[j].strip():
+                    value = (value + " " + lines[j].strip()).strip()
+                    j += 1
+                return value
     return default
 
 
